@@ -415,6 +415,11 @@ def c16():
                     unwindset={"vh_bytes": L + 2, "NameTable": 6, "setPlatformEncoding": 4, "getLanguageId": 4, "vh_stub_locale2lang": 28,
                                "lid:ll_malloc_split": 8, "lid:ll_calloc_split": 8, "lid:ll_realloc_split": 8, "lid:ll_memmove_sym": 8}, stubs=["_ZN9graphite211Locale2LangC2Ev"],
                     cc_defs=["LL_MEM_CASES=0,1,4,6,19"]))
+    for nm, tag in (("maxp", 0x6d617870), ("Gloc", 0x476c6f63), ("Glat", 0x476c6174), ("hmtx", 0x686d7478), ("head", 0x68656164)):
+        qs.append(Q(f"glyphcache_fail_no_{nm}", "glyphcache.cpp", "vh_glyphcache_fail", {"MISSING": tag}, unwind=12, unwindset={"vh_bytes": 56, "mp_release": 12, "lid:ll_malloc_split": 12, "lid:ll_calloc_split": 12},
+                    cc_defs=["LL_MEM_CASES=0,8,12,16,24,32,36,54"], timeout=600 if nm == "head" else 1700, est_gb=8, memgb=None if nm == "head" else 28,
+                    tiers=("quick", "thorough") if nm == "head" else ("thorough",),
+                    note="" if nm == "head" else "later failure points: the solver ran out of memory at 14 GB (the whole Glat/Gloc reading code stays in the formula); thorough tier with 28 GB"))
     for L, out in ((21, 14), (21, 16), (22, 16)):
         qs.append(Q(f"table_Silf_lz4_len{L}_out{out}", "C16_table.cpp", "vh_table", {"TAGV": 0x53696c66, "LEN": L, "HDRW": 0x08000000 | out}, unwind=8,
                     unwindset={"vh_bytes": L + 1, "read_literal": L, "safe_copy": 40, "overrun_copy": 8, "fast_copy": 8, "decompress": L // 3 + 2}))     # ~20 s: the only queries in which decompression succeeds
